@@ -121,15 +121,16 @@ func c05Cut(r *core.Run, s Stream, level, cut int, sm *siteMap) {
 
 func runC05(r *core.Run) {
 	bindRef(r)
-	level := 0
-	if thorough(r) {
-		level = 1
-	}
+	level := 1 // both tiers: the full base menu
 	r.Rule = "for each base stream (.xz 1-3 blocks all checks, multi-chunk, size fields; raw LZMA2 with flushes/raw chunks/all chunk kinds; .lzma in three termination modes; library-, reference- and (thorough) liblzma-written) EVERY proper prefix is decoded with the library reader; multi-stream: every cut except stream/4-byte padding boundaries. non-trivial = distinct (stream, outcome class, bytes delivered) triples"
 	streams := readerStreams(level)
-	if thorough(r) {
+	{
+		lim := 1500 // quick: the small liblzma-written files of the frozen corpus; thorough: up to 20 KB
+		if thorough(r) {
+			lim = 20000
+		}
 		for _, e := range bindRef(nil) {
-			if len(e.Data) > 20000 || len(e.Data) == 0 {
+			if len(e.Data) > lim || len(e.Data) == 0 {
 				continue
 			}
 			f := "xz"
